@@ -41,6 +41,11 @@ def run(ctx):
     from . import rdp_model as _rm
     _rm.check_result_pairing(rc, "P5")
     mapping_contract(rc)
+    res.rule("P7", "the reduction handed to mapping is strictly increasing and duplicate-free: every simplifier loop only pushes ranges with an interior point and "
+                   "retains one new interior index per step (compute_removed_points and mapping assume it: a repeated index yields a row [k, -1])")
+    from . import c01 as _c01
+    from .common import borrow as _borrow
+    _borrow(rc, "P7", _c01.sec_distinct)
     # ---- P3 ------------------------------------------------------------------------
     m = rm.build(rc, "rdp.rdp", {"cost": Obj("enum", "Metrics.smape")})
     before = len(res.findings)
